@@ -13,7 +13,7 @@ import (
 // divisors, negative shift counts, constant expressions), (ii) structured
 // random programs (mostly running to completion), (iii) a malformed stream.
 func Generate(w *kit.Out, r *kit.Rand, tier string) {
-	nRand, nBoundaryPerKind, nMal := 190, 1, 12
+	nRand, nBoundaryPerKind, nMal := 150, 1, 12
 	if tier == "thorough" {
 		nRand, nBoundaryPerKind, nMal = 900, 4, 40
 	}
@@ -40,6 +40,17 @@ func Generate(w *kit.Out, r *kit.Rand, tier string) {
 	rr := r.Fork()
 	for k := 0; k < nRand; k++ {
 		emit(fmt.Sprintf("rand-%d", k), RandomProgram(rr.Fork()))
+	}
+	// (ii-b) extended programs (text templates, no model: GnoVM against native Go only)
+	rx := r.Fork()
+	nExt := ExtTemplateCount()
+	if tier == "thorough" {
+		nExt *= 5
+	}
+	for k := 0; k < nExt; k++ {
+		name, src := ExtProgramAt(k, rx.Fork())
+		w.Case(fmt.Sprintf("ext-%s-%d", name, k))
+		w.Op("xprog %x", []byte(src))
 	}
 	// (iii) malformed
 	rm := r.Fork()
